@@ -84,14 +84,23 @@ class Facts:
             if b.parent:
                 self.children.setdefault(b.parent, []).append(b)
 
+    # ---- views: equivalent representations of a function (see analysis/inline.py)
+    view = 'orig'
+
+    def _v(self, b):
+        if b is None or self.view == 'orig':
+            return b
+        from .inline import inlined
+        return inlined(self, b, t1='i' in self.view, t2='s' in self.view)
+
     def body(self, key):
         """Unique non-derived body with this canonical key (None when absent)."""
         bs = self.by_key.get(key, [])
         if len(bs) == 1:
-            return bs[0]
+            return self._v(bs[0])
         nd = [b for b in bs if not b.derived]
         if len(nd) == 1:
-            return nd[0]
+            return self._v(nd[0])
         return None
 
     def closures_of(self, body):
@@ -103,13 +112,13 @@ class Facts:
     def trait_impl_method(self, adt_path, trait_suffix, method):
         for b in self.bodies:
             if b.impl_self == adt_path and b.impl_trait and b.impl_trait.endswith(trait_suffix) and b.name == method:
-                return b
+                return self._v(b)
         return None
 
     def inherent_method(self, adt_path, method):
         for b in self.bodies:
             if b.impl_self == adt_path and not b.impl_trait and b.name == method:
-                return b
+                return self._v(b)
         return None
 
 
